@@ -177,6 +177,7 @@ def field_mode(seed=0, decide=None, bool_default=None):
 
 
 def exact_mode():
+    del ANGLES[:]
     FIELD['on'] = False
     FIELD['vals'] = {}
     FIELD['decide'] = None
@@ -250,6 +251,8 @@ class Rat:
         self.fv = v % FIELD['p']
         if self.fv == 0 and self.cv is None:
             self.cv = Fraction(0)     # an identically vanishing value is the constant 0 (as in exact mode)
+        elif self.fv == 1 and self.cv is None:
+            self.cv = Fraction(1)     # image 1 <=> identically 1 (w.h.p.): lets sqrt(|unit|^2) fold to 1
         # compatibility for zero tests written against the exact representation
         self.n = Poly() if self.fv == 0 else _ONE
         self.d = _ONE
@@ -710,7 +713,10 @@ def P_eye(n, *a):
     return e
 def P_norm(x, *a, **k):
     x = asarr(x)
-    return uf('sqrt', (x * x).sum())
+    s2 = Rat.lift((x * x).sum())
+    if s2.is_const() and s2.constval() in (0, 1):
+        return Rat.lift(s2.constval())
+    return uf('sqrt', s2)
 class AtProxy:
     def __init__(self, arr): self.arr = arr
 class AtIdx:
@@ -723,7 +729,7 @@ JNP = {
     'multiply': lambda a, b: asarr(a) * asarr(b), 'add': lambda a, b: asarr(a) + asarr(b), 'divide': lambda a, b: asarr(a) / asarr(b),
     'square': lambda a: asarr(a) * asarr(a), 'expand_dims': lambda a, ax: np.expand_dims(asarr(a), ax),
     'sin': unary('sin'), 'cos': unary('cos'), 'tanh': unary('tanh'), 'arctanh': unary('arctanh'), 'log': unary('log'), 'exp': unary('exp'),
-    'sqrt': unary('sqrt'), 'abs': unary('abs'), 'sign': unary('sign'), 'isnan': lambda x: elemwise(lambda v: False if Rat.lift(v).is_const() else uf('isnan', v), x), 'isinf': unary('isinf'), 'arctan2': lambda a, b: elemwise(lambda u, v: uf('arctan2', u, v), a, b), 'logical_and': lambda a, b: asarr(a) * asarr(b), 'logical_not': lambda a: 1 - asarr(a), 'logical_or': lambda a, b: asarr(a) + asarr(b) - asarr(a) * asarr(b), 'repeat': lambda a, n, axis=None: np.repeat(asarr(a), n, axis=axis), 'transpose': lambda a, *ax: np.transpose(asarr(a), *ax), 'outer': lambda a, b: np.outer(asarr(a), asarr(b)), 'trace': lambda a: np.trace(asarr(a)), 'full': lambda shape, v, **k: np.full(shape if isinstance(shape, tuple) else (shape,), None, dtype=object) * 0 + Rat.lift(v) if False else _full(shape, v), 'any': lambda x, axis=None, **k: _any(x, axis), 'all': lambda x, axis=None, **k: _all(x, axis),
+    'sqrt': unary('sqrt'), 'abs': unary('abs'), 'sign': unary('sign'), 'isnan': lambda x: elemwise(lambda v: False if Rat.lift(v).is_const() else uf('isnan', v), x), 'isinf': unary('isinf'), 'arctan2': lambda a, b: elemwise(_arctan2, a, b), 'logical_and': lambda a, b: asarr(a) * asarr(b), 'logical_not': lambda a: 1 - asarr(a), 'logical_or': lambda a, b: asarr(a) + asarr(b) - asarr(a) * asarr(b), 'repeat': lambda a, n, axis=None: np.repeat(asarr(a), n, axis=axis), 'transpose': lambda a, *ax: np.transpose(asarr(a), *ax), 'outer': lambda a, b: np.outer(asarr(a), asarr(b)), 'trace': lambda a: np.trace(asarr(a)), 'full': lambda shape, v, **k: np.full(shape if isinstance(shape, tuple) else (shape,), None, dtype=object) * 0 + Rat.lift(v) if False else _full(shape, v), 'any': lambda x, axis=None, **k: _any(x, axis), 'all': lambda x, axis=None, **k: _all(x, axis),
     'maximum': lambda a, b: elemwise(lambda x, y: _minmax('max', x, y), a, b),
     'minimum': lambda a, b: elemwise(lambda x, y: _minmax('min', x, y), a, b),
     'roll': lambda a, shift, axis=None: np.roll(asarr(a), toint(shift), axis=axis),
@@ -745,6 +751,20 @@ JNP = {
     'issubdtype': lambda d, c: (d[1] == 'float') == (c[1] == 'inexact') if isinstance(d, tuple) and d[0] == 'dtype' else True,
     'ndarray': ('dtypeclass', 'ndarray'),
 }
+ANGLES = []    # field mode: (sin image, cos image, angle value) of angles known by construction
+
+def _arctan2(y, x):
+    y, x = Rat.lift(y), Rat.lift(x)
+    if FIELD['on']:
+        for S, C, th in ANGLES:
+            if x.fv == C and y.fv == S:
+                return th
+            if x.fv == C and y.fv == (-S) % FIELD['p']:
+                return -th
+    if y.is_const() and y.constval() == 0 and x.is_const() and x.constval() > 0:
+        return Rat.lift(0)
+    return uf('arctan2', y, x)
+
 def _minmax(name, x, y):
     x, y = Rat.lift(x), Rat.lift(y)
     if x.is_const() and y.is_const():
